@@ -48,6 +48,8 @@ def worker(i, ids, tier):
     for sid in ids:
         t0 = time.time()
         d = os.path.join(clone, "seeded", sid)
+        if os.path.exists(os.path.join(d, "result.json")):
+            os.remove(os.path.join(d, "result.json"))
         rc, out = sh("python3 tools/seedtest.py %s --skip-suite %s--tier %s" % (d, "--no-demo " if FAST else "", tier), cwd=clone, env=env)
         if not os.path.exists(os.path.join(d, "result.json")):      # transient failure (worktree lock, cargo lock): once more
             rc, out = sh("python3 tools/seedtest.py %s --skip-suite %s--tier %s" % (d, "--no-demo " if FAST else "", tier), cwd=clone, env=env)
